@@ -30,6 +30,7 @@ type loopInfo struct {
 	header *ssa.BasicBlock
 	blocks map[*ssa.BasicBlock]bool
 	ord    int // 1-based ordinal in source order
+	backs  int // back edges seen so far
 }
 
 type Frame struct {
